@@ -140,13 +140,13 @@ struct HistEngine : Engine {
 				else if (j < 74) { if (S.stale) continue; o["k"] = "E_KEYS"; }
 				else if (j < 80) { if (S.stale) continue; o["k"] = "E_VALUE"; o["key"] = w.chance(1, 2) ? "title" : w.chance(1, 2) ? "Author" : "css"; }
 				else if (j < 83) { o["k"] = "E_SET_LANG"; o["lang"] = (int64_t)w.below(7); }
-				else if (j < 86) {
+				else if (j < 91) {
 					// the caller replaces the text the engine works on (mmd_engine_d_string / its own DString) - one engine, several documents
 					o["k"] = "E_SET_TEXT"; o["doc"] = (int64_t)w.below((uint64_t)ndocs);
 					if ((int)o.geti("doc") == opml_doc || S.doc == opml_doc) continue;       // an engine's extensions are fixed at creation
 					S.doc = (int)o.geti("doc"); S.parsed = false; S.exported = false;
 				}
-				else if (j < 92) { o["k"] = "E_RESET"; S.parsed = false; S.exported = false; S.stale = false; }
+				else if (j < 95) { o["k"] = "E_RESET"; S.parsed = false; S.exported = false; S.stale = false; }
 				else { o["k"] = "E_FREE"; S = PSlot(); }
 				if (S.live && S.opml && o.has("k") && parses(o.gets("k"))) S.spent = true;
 			} else if (k < 88 && use_noise) {
